@@ -78,6 +78,18 @@ def translator_cross_check(report, status):
             status.problem("translator", f"{what}: translator read {a}, live object/source has {b}")
 
 
+def level_fingerprint(ds):
+    """samples and mask of one pyramid level (what the steps of that scale work on)"""
+    import hashlib
+
+    h = hashlib.sha256()
+    for name in ("im", "msk"):
+        if name in ds:
+            a = np.ascontiguousarray(np.array(ds[name].data))
+            h.update(name.encode() + str(a.shape).encode() + str(a.dtype).encode() + a.tobytes())
+    return h.hexdigest()
+
+
 class CaptureMachine(ms.LoggedMachine):
     """the real machine; records what every matching_cost execution sees and what run_multiscale receives"""
 
@@ -91,6 +103,7 @@ class CaptureMachine(ms.LoggedMachine):
         self.levels.append({
             "scale": int(self.current_scale),
             "rows": int(self.left_img.sizes["row"]), "cols": int(self.left_img.sizes["col"]),
+            "fp_left": level_fingerprint(self.left_img), "fp_right": level_fingerprint(self.right_img),
             "disp_min": np.array(self.disp_min, dtype=np.float64), "disp_max": np.array(self.disp_max, dtype=np.float64),
             "right_disp_min": np.array(self.right_disp_min, dtype=np.float64) if self.right_disp_map else None,
             "right_disp_max": np.array(self.right_disp_max, dtype=np.float64) if self.right_disp_map else None,
@@ -291,6 +304,34 @@ def check_case(ctx, report, left, right, pipe, lo, hi, label):
     if (ds_fingerprint(left), ds_fingerprint(right)) != fp:
         trig = ("multiband_" if "band_im" in left.coords else "mono_") + ("mask" if "msk" in left else "nomask")
         report.fail("inputs_untouched", trig, case, None, "an input dataset was modified by pandora.run")
+    # ---- every level of an image is made from that image alone: the levels of the right image do not change when only the
+    #      left input changes (its mask here), and conversely
+    if "msk" in left and "msk" in right and ctx.rng.random() < 0.6:
+        import random as _random
+
+        import zlib
+
+        r3 = _random.Random(zlib.crc32(label.encode()))
+        for side, other, key in (("left", "right", "fp_right"), ("right", "left", "fp_left")):
+            l2, r2 = left.copy(deep=True), right.copy(deep=True)
+            tgt = l2 if side == "left" else r2
+            mk = np.array(tgt["msk"].data)
+            r0, c0 = r3.randrange(0, max(1, rows - 4)), r3.randrange(0, max(1, cols - 6))
+            mk[r0:r0 + 4, c0:c0 + 6] = np.where(mk[r0:r0 + 4, c0:c0 + 6] == 0, 2, 0)
+            tgt["msk"].data[:] = mk
+            try:
+                _l, _r, m2 = run_multiscale_case(l2, r2, pipe)
+            except Exception:  # pylint: disable=broad-except
+                report.count("levels_metamorphic_run_raised")
+                continue
+            report.hit("levels_from_own_image")
+            a = [l[key] for l in m.levels]
+            b = [l[key] for l in m2.levels]
+            if a != b:
+                lv = [m.levels[i]["scale"] for i in range(min(len(a), len(b))) if a[i] != b[i]]
+                report.fail("scales_executed", f"{other}_levels_depend_on_{side}_mask", dict(case, changed=side, block=[r0, c0]),
+                            {"levels_that_changed": lv},
+                            f"changing only the {side} mask changed the {other} image/mask seen at scale(s) {lv}")
 
 
 DIRECT_SHAPES_QUICK = [(103, 7), (5, 205), (102, 3), (3, 102), (100, 12), (101, 104)]
